@@ -1099,6 +1099,120 @@ Section Out.
     eapply Forall_impl; [|exact HJ]. intros a [H _]. exact H.
   Qed.
 
+  (* ---------------------------------------------------------------- pending up to junk; the general step out of it *)
+  (* the move-out candidate is pending and the kernel queue holds IN_IGNORED records of descriptors forgotten earlier
+     (the state after a SECOND directory move-out in a row) *)
+  Record PJ (w : world) (k : kst) (r : rstate) (h : bytes) (c : N) (p : bytes) : Prop := {
+    pj_out : POut w (kset_queue k []) r h c p;
+    pj_junk : Forall (junk_ev k r) (k_queue k)
+  }.
+
+  Lemma POut_PJ w k r h c p : POut w k r h c p -> PJ w k r h c p.
+  Proof.
+    intros PO. assert (Hq := po_queue _ _ _ _ _ _ PO). split; [|rewrite Hq; constructor].
+    destruct k as [a1 a2 a3 a4]. cbn in Hq. subst a3. exact PO.
+  Qed.
+
+  (* The first record of the next batch - a junk record, or the first record of the next operation - forgets the departed
+     sub-tree; the rest of the batch is processed exactly as from the synchronised state (kC0, rC) in which the sub-tree
+     is already forgotten, whatever that clean run is.  The operation must not notify a directory inside the departed
+     directory at its new place h. *)
+  Theorem pj_transfer w k r h c p o t' r2 k2 evs : PJ w k r h c p ->
+    (forall d, In d (notified o) -> blw h d = false) ->
+    let k1 := kernel_op k (w_fs w) o in k_queue k1 <> [] ->
+    let rC := fst (forget_tree (wfp r) p (rclr r) (kset_queue k [])) in
+    let kC0 := kset_queue (snd (forget_tree (wfp r) p (rclr r) (kset_queue k []))) [] in
+    read_batch C t' (rC, drainq (kernel_op kC0 (w_fs w) o), []) (k_queue (kernel_op kC0 (w_fs w) o)) = Done (r2, k2, evs) ->
+    k_queue k2 = [] ->
+    exists kb, read_batch C t' (r, drainq k1, []) (k_queue k1) = Done (r2, kb, evs) /\ kset_queue kb [] = k2 /\
+               Forall (junk_ev kb r2) (k_queue kb).
+  Proof.
+    intros [PO HJ] Hnh k1 Qne rC kC0 Hrd Hq2.
+    set (k0 := kset_queue k []) in *.
+    destruct PO as [Ppend Pck Pq Ptight Plt Pwds Plive Pmask Pclean Pcov Pstale].
+    destruct (forget_tree_fold p (wfp r) (rclr r)) as (wds & rC' & Hfold & Hwds).
+    assert (ErC : rC = rC') by (unfold rC; now rewrite Hfold). assert (EkC : kC0 = kset_queue (fold_left krm_watch wds k0) []) by (unfold kC0; now rewrite Hfold).
+    clearbody rC kC0. subst rC kC0. rename rC' into rC. set (kC0 := kset_queue (fold_left krm_watch wds k0) []) in *.
+    rewrite Hfold in Pclean. cbn [fst snd] in Pclean. fold kC0 in Pclean.
+    assert (W := rs_wf _ _ _ _ Pclean).
+    destruct (fold_krm wds k0) as (FA & FB & FD & _).
+    assert (KR : krel (keepf wds) k0 kC0) by (repeat split; cbn; try assumption).
+    assert (Hfz : forall wd, In wd wds -> fz r p wd).
+    { intros wd Hw. destruct (Hwds wd Hw) as (x & A & _ & D). exists x. now split. }
+    assert (NH : forall i, In i (hits (w_fs w) o) -> nohit_ino (keepf wds) k0 i).
+    { intros i Hi kw Hk Ei. destruct (keepf wds kw) eqn:Ek; [reflexivity|]. exfalso.
+      unfold keepf in Ek. apply negb_false_iff, memN_in in Ek.
+      destruct (Pstale kw Hk (Hfz _ Ek)) as (e & He & Ie & Hb).
+      rewrite hits_notified in Hi. apply in_map_iff in Hi as (d & Ed & Hd). specialize (Hnh d Hd).
+      unfold ino_of in Ed. destruct (flookup d (w_fs w)) as [e'|] eqn:El.
+      - destruct (flookup_some _ _ _ El) as [He' Ee']. assert (e' = e) by (apply (ino_inj w); try assumption; congruence). subst e'.
+        congruence.
+      - assert (H0 := wf_fresh w W e He). lia. }
+    assert (KR1 := kernel_op_krel (keepf wds) k0 kC0 (w_fs w) o KR NH).
+    set (k10 := kernel_op k0 (w_fs w) o) in *. set (kCc := kernel_op kC0 (w_fs w) o) in *.
+    destruct KR1 as (KA & KB & KD & KE).
+    (* the junk in front of the kernel queue *)
+    assert (Q : qext (k_queue k) k k0) by (repeat split; cbn; now rewrite ?app_nil_r).
+    assert (JF : jfree (k_queue k) k0).
+    { intros a kw Ha' Hk. rewrite Forall_forall in HJ. destruct (HJ a Ha') as [_ [H _]]. now apply H. }
+    assert (Q1 := kernel_op_qext _ _ _ (w_fs w) o Q JF). fold k1 k10 in Q1.
+    assert (Edr : drainq k1 = drainq k10) by exact (qext_drainq _ _ _ Q1).
+    destruct Q1 as (QA1 & QB1 & QD1 & QE1).
+    set (kF := fold_left krm_watch wds (drainq k10)).
+    destruct (fold_krm wds (drainq k10)) as (GA & GB & GD & ig & GE & GF). fold kF in GA, GB, GD, GE.
+    cbn [drainq kset_queue k_watches k_next_wd k_next_cookie k_queue app] in GA, GB, GD, GE.
+    assert (Hnw : k_next_wd k10 = k_next_wd k0) by apply kernel_op_next_wd.
+    assert (QJ : qextj ig kF (drainq kCc)).
+    { split; [repeat split; cbn; try congruence; now rewrite GE, app_nil_r|].
+      intros a Ha'. rewrite Forall_forall in GF. specialize (GF a Ha'). split.
+      - cbn. rewrite KB, Hnw. destruct (Hfz _ GF) as (x & _ & Hx). destruct (Plive x _ Hx) as (kw & Hk & Ek). rewrite <- Ek. now apply Plt.
+      - intros kw Hk Eq. cbn in Hk. rewrite KA in Hk. apply filter_In in Hk as [_ Hk]. unfold keepf in Hk.
+        apply negb_true_iff in Hk. rewrite Eq in Hk. apply memN_in in GF. congruence. }
+    destruct (forget_tree_spec p (wfp r) (rclr r) k0 rC (fold_left krm_watch wds k0) Ptight (Hfold k0))
+      as (_ & W0 & _ & W2 & _ & P0 & P2 & _ & PdC & _).
+    cbn [rclr pend pfw] in PdC, P0.
+    (* after the first record the reader is at (rC, kF) and has the records of the operation before it *)
+    assert (Hreal : read_batch C t' (r, drainq k1, []) (k_queue k1) = read_batch C t' (rC, kF, []) (k_queue kCc)).
+    { rewrite Edr, QE1. rewrite KE. destruct (k_queue k) as [|a J'] eqn:EJ.
+      - cbn [app]. destruct (k_queue k10) as [|e1 rest] eqn:EQ; [exfalso; apply Qne; now rewrite QE1|].
+        assert (He1 : is_moved_to (k_mask e1) && N.eqb (k_cookie e1) c && amem N.eqb (k_wd e1) (pfw r) = false).
+        { assert (HT := kernel_op_tocookie k0 (w_fs w) o Pq). fold k10 in HT. rewrite EQ in HT. inversion HT as [|? ? Ht _]; subst.
+          destruct (is_moved_to (k_mask e1)) eqn:Em; [|reflexivity]. rewrite (Ht Em). cbn [andb].
+          assert (Hc : N.eqb (k_next_cookie k0) c = false) by (apply N.eqb_neq; lia). now rewrite Hc. }
+        cbn [read_batch]. unfold read_one at 1. rewrite (settle_pending_forget C r (drainq k10) e1 c p Hmo Ppend He1).
+        change {| wfp := wfp r; pfw := pfw r; mvf := mvf r; calls := calls r; pend := None |} with (rclr r). rewrite Hfold. fold kF.
+        now rewrite (read_one_body_eq C (w_fs w) rC kF [] e1 PdC) || (rewrite read_one_body_eq by exact PdC; reflexivity).
+      - cbn [app read_batch]. inversion HJ as [|? ? Ha HJ']; subst.
+        assert (He1 : is_moved_to (k_mask a) && N.eqb (k_cookie a) c && amem N.eqb (k_wd a) (pfw r) = false).
+        { unfold amem. rewrite (proj1 Ha). now rewrite andb_false_r. }
+        unfold read_one at 1. rewrite (settle_pending_forget C r (drainq k10) a c p Hmo Ppend He1).
+        change {| wfp := wfp r; pfw := pfw r; mvf := mvf r; calls := calls r; pend := None |} with (rclr r). rewrite Hfold. fold kF.
+        rewrite <- (read_one_body_eq C t' rC kF [] a PdC).
+        rewrite (read_skip t' rC kF [] a PdC (P0 _ (proj1 Ha))).
+        apply read_batch_skip; [exact PdC|]. eapply Forall_impl; [|exact HJ']. intros b [Hb _]. now apply P0. }
+    rewrite Hreal.
+    assert (B2 := read_batch_keq (qextj ig) (qextj_add ig) (qextj_rm ig) t' (k_queue kCc) rC kF (drainq kCc) [] QJ). rewrite Hrd in B2.
+    destruct (read_batch C t' (rC, kF, []) (k_queue kCc)) as [[[rb kb] xb]|] eqn:Er; [|contradiction].
+    cbn in B2. destruct B2 as (-> & -> & QJ2).
+    exists kb. split; [reflexivity|].
+    assert (D0 : dinv (fun wd => In wd wds) kF rC).
+    { intros wd Hw. destruct (Hwds wd Hw) as (x & Hb & Hkx & Hx).
+      split; [|split; [|split]].
+      - rewrite GB. cbn. rewrite Hnw. destruct (Plive x _ Hx) as (kw & Hk & Ek). rewrite <- Ek. now apply Plt.
+      - intros kw Hk Eq. rewrite GA in Hk. apply filter_In in Hk as [_ Hk]. unfold keepf in Hk. apply negb_true_iff in Hk.
+        rewrite Eq in Hk. apply memN_in in Hw. congruence.
+      - exact (P2 x wd Hb Hkx Hx).
+      - intros x' Hx'. assert (Hx'' := W0 _ _ Hx'). cbn [rclr wfp] in Hx''.
+        assert (x' = x) by (apply Ptight in Hx''; apply Ptight in Hx; congruence). subst x'.
+        rewrite (W2 x Hb Hkx) in Hx'. discriminate. }
+    assert (D2 := read_batch_dinv _ _ _ _ _ _ _ _ _ D0 Er).
+    destruct QJ2 as [(QA & QB & QD & QE) _]. rewrite Hq2, app_nil_r in QE.
+    split.
+    - clear -QA QB QD Hq2. destruct k2 as [a1 a2 a3 a4], kb as [b1 b2 b3 b4]. cbn in *. subst. reflexivity.
+    - rewrite QE. apply Forall_forall. intros a Ha'. rewrite Forall_forall in GF. specialize (GF a Ha').
+      destruct (D2 _ GF) as (A & B & P1 & _). split; [exact P1 | split; [exact B | exact A]].
+  Qed.
+
   (* the operations covered now: C02's covered_op plus a directory moved out of the tree *)
   Inductive covered_x (w : world) : op -> Prop :=
   | cx_op o : covered_op C w o -> covered_x w o
